@@ -51,6 +51,7 @@ CONSTANTS Mods,        \* module names
           ForeignOps,  \* module calls attempted from a thread that does not own the module's context (C14)
           MaxRefs,     \* references the program may hold on one module object
           MaxHeld,     \* events the program may retain (m_mem_ref) beyond their invocation
+          PoolSize,    \* threads of the context's task pool (16 in the library; tasks beyond wait in its queue)
           Setup        \* "" = start from nothing; otherwise the name of a canned set-up the driver performs first (see InitOf)
 
 VARIABLE S
@@ -108,6 +109,9 @@ Init0 == [ctx |-> Ctx0,
           xdue |-> {},                                 \* <<m, "path", key>> a change of the watched path is pending in m's watch descriptor;
                                                        \* <<m, "task", key>> the task has finished and notified, its event was not consumed yet
           tord |-> <<>>,                               \* (Collide only) registered modules in registration order
+          tlost |-> {},                                \* <<m, key>>: tasks discarded from the pool queue by a loop stop: they never run, their
+                                                       \* sources stay registered (and still count as started when their module pauses / stops)
+          tq |-> <<>>,                                 \* <<m, key>>: started tasks waiting in the pool's queue for a free thread
           trun |-> {},                                 \* <<m, key>>: tasks whose thread is executing the user's function
           errno |-> 0]
 \* canned set-ups (the driver executes the same public calls before every program and checks it arrived here):
@@ -208,8 +212,15 @@ InBatch(s, m, k, key) == \E i \in 1..Len(s.stack) : s.stack[i].k = "batch" /\ \E
 \* (the source is one-shot).  The thread uses its source until it has notified: before a started task's source leaves the poll
 \* (module paused, stopped, deregistered) the library waits for the threads of the context (all of them: it tears its pool down).
 TaskKeys(s, m) == {x.key : x \in {y \in s.mod[m].src : y.k = "task"}}
-Started(s, m) == (\E t \in s.trun : t[1] = m) \/ (\E d \in s.xdue : d[1] = m /\ d[2] = "task")
-JoinAll(s) == [s EXCEPT !.trun = {}, !.xdue = @ \cup {<<t[1], "task", t[2]>> : t \in s.trun}]
+InQueue(s) == {s.tq[i] : i \in 1..Len(s.tq)}
+Started(s, m) == (\E t \in s.trun \cup InQueue(s) \cup s.tlost : t[1] = m) \/ (\E d \in s.xdue : d[1] = m /\ d[2] = "task")
+\* the pool is torn down waiting for all of its tasks: the running ones return, the queued ones run as well
+JoinAll(s) == [s EXCEPT !.trun = {}, !.tq = <<>>, !.xdue = @ \cup {<<t[1], "task", t[2]>> : t \in s.trun \cup InQueue(s)}]
+\* a task is handed to the pool: a free thread takes it at once, else it waits in the queue
+StartTask(s, t) == IF Cardinality(s.trun) < PoolSize THEN [s EXCEPT !.trun = @ \cup {t}] ELSE [s EXCEPT !.tq = Append(@, t)]
+RECURSIVE StartTasks(_, _, _)
+StartTasks(s, m, keys) == IF keys = {} THEN s
+                          ELSE LET k == CHOOSE k \in keys : \A j \in keys : k <= j IN StartTasks(StartTask(s, <<m, k>>), m, keys \ {k})
 JoinFor(s, m) == IF Started(s, m) THEN JoinAll(s) ELSE s
 ResetMod(s, m) == [s EXCEPT !.pay = ReleaseAll(ReleaseAll(s.pay, s.mod[m].bq), s.mod[m].stash),
                              !.ufd = CloseAc(s.ufd, s.mod[m].src),
@@ -232,8 +243,8 @@ Step(s) ==
             \* start fails with EAGAIN and the module stays as it was
             IF f.a /\ Limited(r, m) /\ r.mod[m].tb.tok = 0 THEN Ret(r, EAGAIN) ELSE
             LET r1 == IF f.a THEN Spend(r, m) ELSE r
-                s1 == [r1 EXCEPT !.mod[m].st = "running", !.run = r.run + 1,
-                                 !.trun = @ \cup {<<m, key>> : key \in TaskKeys(r, m)},    \* its sources are armed; task sources get their thread
+                s1 == [StartTasks(r1, m, TaskKeys(r, m))                                      \* its sources are armed; task sources are handed to the pool
+                          EXCEPT !.mod[m].st = "running", !.run = r.run + 1,
                                  !.mod[m].pipe = IF f.a THEN <<>> ELSE r.mod[m].pipe]
             IN IF f.a /\ HasHook(m, "start")
                  THEN EnterCb(Push(s1, Fr("start2", m, TRUE, 0)), m, "start", <<>>)
@@ -251,6 +262,7 @@ Step(s) ==
                                 !.run = IF r.mod[m].st = "running" THEN r.run - 1 ELSE r.run,
                                 !.due = DropDue(r.due, m),                             \* its timers are disarmed (re-armed from scratch on resume)
                                 !.xdue = DropDue(r0.xdue, m),                          \* its watch / notification descriptors are closed: what was pending there is lost
+                                !.tlost = DropDue(r0.tlost, m),
                                 !.idue = {d \in r.idue : d[1] # m},
                                 !.mod[m].st = IF f.a THEN "stopped" ELSE "paused"]
             IN IF ~f.a THEN Ret(Sys(s1, "MOD_STOPPED", m), 0)
@@ -366,9 +378,10 @@ Step(s) ==
       [] f.k = "pillstop" ->
             IF r.mod[m].st = "running" THEN Push(r, Fr("stop", m, TRUE, 0)) ELSE r
       [] f.k = "lstop2" ->       \* quit code; a non-persistent context without modules is released now
-            \* the task pool is torn down: running tasks are waited for (their notifications stay pending for the next loop run)
+            \* the task pool is torn down: running tasks are waited for (their notifications stay pending for the next loop run),
+            \* tasks still waiting in its queue are discarded and never run
             LET code == r.ctx.qcode
-                r1 == JoinAll(r) IN
+                r1 == JoinAll([r EXCEPT !.tq = <<>>, !.tlost = @ \cup InQueue(r)]) IN
             IF Registered(r1) = {} /\ ~CtxPersist THEN Ret(ReleaseCtx(r1), code) ELSE Ret(r1, code)
       [] f.k = "cdereg" ->       \* m_ctx_deregister(): every module is deregistered (not from the user), then the context is released
             IF f.b = <<>> THEN (IF r.ctx.st = "none" THEN Ret(r, 0) ELSE Ret(ReleaseCtx(r), 0))
@@ -574,9 +587,9 @@ SrcRegister(m, k, key, o) ==
     /\ IF k = "fd" /\ o.pr = "L" THEN Refuse(NEG)                                \* (bad parameter: descriptor events are always high priority)
        ELSE IF ModRefused(m) THEN Refuse(NEG)
        ELSE IF HasSrc(S, m, k, key) THEN Rated(m, Ret(S, EEXIST))                 \* (the token is taken before the lookup)
-       ELSE Rated(m, [S EXCEPT !.mod[m].src = @ \cup {[k |-> k, key |-> key, os |-> (o.os \/ k \in {"task", "thr"}), ac |-> o.ac, pr |-> o.pr]},
-                               \* a task registered on a RUNNING module is started at once
-                               !.trun = IF k = "task" /\ S.mod[m].st = "running" THEN @ \cup {<<m, key>>} ELSE @, !.ret = 0])
+       ELSE LET s1 == [S EXCEPT !.mod[m].src = @ \cup {[k |-> k, key |-> key, os |-> (o.os \/ k \in {"task", "thr"}), ac |-> o.ac, pr |-> o.pr]}, !.ret = 0]
+            \* a task registered on a RUNNING module is started at once
+            IN Rated(m, IF k = "task" /\ S.mod[m].st = "running" THEN StartTask(s1, <<m, key>>) ELSE s1)
 
 SrcDeregister(m, k, key) ==
     /\ Can("SrcDeregister") /\ Handle(m) /\ m \in Targets /\ k \in Kinds /\ key \in Keys
@@ -608,7 +621,9 @@ PathTouch(key) == /\ Can("PathTouch") /\ AtTop /\ key \in Keys
 PidExit(key) == /\ Can("PidExit") /\ AtTop /\ key \in Keys /\ key \notin S.dead
                 /\ S' = [S EXCEPT !.dead = @ \cup {key}]
 TaskFinish(m, key) == /\ Can("TaskFinish") /\ AtTop /\ <<m, key>> \in S.trun
-                      /\ S' = [S EXCEPT !.trun = @ \ {<<m, key>>}, !.xdue = @ \cup {<<m, "task", key>>}]
+                      /\ LET s1 == [S EXCEPT !.trun = @ \ {<<m, key>>}, !.xdue = @ \cup {<<m, "task", key>>}]
+                         IN \* the thread that became free takes the next task from the queue
+                            S' = IF s1.tq = <<>> THEN s1 ELSE [s1 EXCEPT !.trun = @ \cup {Head(s1.tq)}, !.tq = Tail(@)]
 \* m_mod_set_tokenbucket(): the old refill timer goes (a rate-limited call under the old bucket), the new bucket starts full,
 \* its refill timer is registered (a rate-limited call under the new bucket: with burst 0 it fails with EAGAIN)
 SetTokenBucket(m, v) ==
@@ -748,7 +763,7 @@ C04_ObjectLifetime == \A m \in Mods : /\ (S.mod[m].st = "none" => (~S.mod[m].reg
 \* C20: a descriptor is closed by the library only through auto-close; one that is registered is open
 C20_RegisteredOpen == \A m \in Mods : \A x \in S.mod[m].src : x.k = "fd" => S.ufd[x.key] = "open"
 \* C03/C04: a task thread never outlives its source; what is pending in a library-owned descriptor belongs to a polled source
-C04_NoOrphanTask == \A t \in S.trun : S.mod[t[1]].st = "running" /\ HasSrc(S, t[1], "task", t[2])
+C04_NoOrphanTask == \A t \in S.trun \cup InQueue(S) : S.mod[t[1]].st = "running" /\ HasSrc(S, t[1], "task", t[2])
 C03_PendingHasSource == \A d \in S.xdue : S.mod[d[1]].st = "running" /\ HasSrc(S, d[1], d[2], d[3])
 \* C18: never more tokens than the burst; no limit when the module is not between start and stop unless configured meanwhile
 C18_TokensBounded == \A m \in Mods : Limited(S, m) => (S.mod[m].tb.tok >= 0 /\ S.mod[m].tb.tok <= S.mod[m].tb.burst)
